@@ -267,7 +267,7 @@ type vfC17Pattern struct {
 var vfC17PatternKinds = []string{
 	"exact", "exact", "dirstar", "dirstar", "dirstar", "dirext", "question", "class", "classrange", "negclass",
 	"anydir", "twostar", "deep", "relstar", "barestar", "dironly", "trailslash", "unclean", "rootdepth",
-	"prefixstar", "prefixdir", "escaped", "classsep", "upper",
+	"prefixstar", "prefixdir", "escaped", "classsep", "upper", "twostar", "deep", "rootdepth", "anydir",
 }
 
 // vfC17DrawPattern builds one pattern over the tree rooted at root.
@@ -587,13 +587,12 @@ func (w *vfC17World) drawLoc(t *rapid.T, tgt, role, fam, label string) (loc vfC1
 	var tr []string
 	// A decoy: a spelling that, taken as it is written, matches one of the
 	// patterns, while the file it denotes does not.
-	if strings.HasPrefix(tgt, w.root+"/") && len(w.patterns) > 0 && !w.allowed(tgt) &&
-		rapid.IntRange(0, 2).Draw(t, label+"_decoy") == 0 {
+	if strings.HasPrefix(tgt, w.root+"/") && len(w.patterns) > 0 && !w.allowed(tgt) {
 		var decoys []string
 		for _, p := range w.patterns {
 			decoys = append(decoys, vfC17Decoys(w.root, p.Text, tgt)...)
 		}
-		if len(decoys) > 0 {
+		if len(decoys) > 0 && rapid.IntRange(0, 3).Draw(t, label+"_decoy") != 0 {
 			abs, tr = rapid.SampledFrom(decoys).Draw(t, label+"_decoy_raw"), []string{"decoy"}
 			if c := path.Clean(abs); c != tgt {
 				t.Fatalf("VERIF-INCONCLUSIVE decoy %q cleans to %q, not to the target %q", abs, c, tgt)
@@ -1187,6 +1186,3 @@ func (w *vfC17World) inForce(what string, loc vfC17Loc, l *vfC17ListJSON) {
 			what, loc.Raw, l.ID, vfC17MarkerHost(tok), c.Reason, want)
 	}
 }
-
-// Note that vfkit is used by the tests; keep the import used here too.
-var _ = vfkit.Tier
